@@ -239,4 +239,106 @@ theorem writesOf_mem {w : Bytes} {ops : List Op} (h : w ∈ writesOf ops) : Op.w
     | reopen => exact List.mem_cons_of_mem _ (ih (by simpa [writesOf] using h))
     | sync => exact List.mem_cons_of_mem _ (ih (by simpa [writesOf] using h))
 
+/-! ### every method finishes within a bounded number of micro-steps -/
+
+open Mutex (RunsN)
+
+/-- micro-steps one `Write(b)` can take at most: two passes (open, test), one rotation (close, remove, one rename per
+    backup slot, reset) and the bytes -/
+def opBound (cfg : Cfg) : Op → Nat
+  | .write b => b.length + cfg.maxBackups + 7
+  | _ => 1
+
+theorem bytesN (cfg : Cfg) (b : Bytes) : ∀ (rest : Bytes) (s : St),
+    ∃ s', RunsN (sys cfg) (rest.length + 1) (.wBytes b rest) s b.length s' := by
+  intro rest
+  induction rest with
+  | nil => intro s; exact ⟨s, RunsN.step rfl (RunsN.fin rfl)⟩
+  | cons x rest ih =>
+    intro s
+    obtain ⟨s', h⟩ := ih { s with files := s.files.set 0 (some (content s.files 0 ++ [x])), size := s.size + 1 }
+    exact ⟨s', RunsN.step rfl h⟩
+
+theorem chainN (cfg : Cfg) (b : Bytes) : ∀ (i : Nat) (s : St) (n r : Nat) (s'' : St),
+    RunsN (sys cfg) n (.wOpen b) { files := renameChain s.files i, isOpen := false, size := 0 } r s'' →
+    RunsN (sys cfg) (n + i + 1) (.rRename b i) s r s'' := by
+  intro i
+  induction i with
+  | zero => intro s n r s'' h; exact RunsN.step rfl h
+  | succ i ih =>
+    intro s n r s'' h
+    have := ih { s with files := mv s.files i (i+1) } n r s'' h
+    have e : n + (i + 1) + 1 = (n + i + 1) + 1 := by omega
+    rw [e]; exact RunsN.step rfl this
+
+/-- a pass that does not rotate -/
+theorem passN_done (cfg : Cfg) (b : Bytes) (s : St)
+    (hc : ¬ ((openIfNeeded s).size > 0 ∧ (openIfNeeded s).size + b.length > cfg.maxSize)) :
+    ∃ s', RunsN (sys cfg) (b.length + 3) (.wOpen b) s b.length s' := by
+  obtain ⟨s', h⟩ := bytesN cfg b b (openIfNeeded s)
+  refine ⟨s', RunsN.step rfl ?_⟩
+  show RunsN (sys cfg) (b.length + 1 + 1) (.wCheck b) (openIfNeeded s) b.length s'
+  refine RunsN.step rfl ?_
+  have e1 : ((sys cfg).micro (.wCheck b) (openIfNeeded s)) = (.wBytes b b, openIfNeeded s) := by
+    show (if (openIfNeeded s).size > 0 ∧ (openIfNeeded s).size + b.length > cfg.maxSize then _ else _) = _
+    rw [if_neg hc]
+  rw [e1]; exact h
+
+/-- from the size test on, when it decides to rotate: one rotation, then a pass that cannot rotate again (the size is 0
+    after re-opening) -/
+theorem checkN_rot (cfg : Cfg) (b : Bytes) (t : St) (hc : t.size > 0 ∧ t.size + b.length > cfg.maxSize) :
+    ∃ n s', n ≤ b.length + cfg.maxBackups + 6 ∧ RunsN (sys cfg) n (.wCheck b) t b.length s' := by
+  have h0 := reopen_after_rotate cfg t
+  have hc1 : ¬ ((openIfNeeded (rotate cfg t)).size > 0 ∧
+      (openIfNeeded (rotate cfg t)).size + b.length > cfg.maxSize) := by rw [h0]; omega
+  obtain ⟨s', h1⟩ := passN_done cfg b (rotate cfg t) hc1
+  have e1 : ((sys cfg).micro (.wCheck b) t) = (.rRemove b, { t with isOpen := false }) := by
+    show (if t.size > 0 ∧ t.size + b.length > cfg.maxSize then _ else _) = _
+    rw [if_pos hc]
+  by_cases hm : cfg.maxBackups < 1
+  · have e2 : ((sys cfg).micro (.rRemove b) { t with isOpen := false }) =
+        (.rRename b 0, { t with isOpen := false, files := t.files.set 0 none }) := by
+      show (if cfg.maxBackups < 1 then _ else _) = _
+      rw [if_pos hm]
+    have hrot : rotate cfg t = { files := renameChain (t.files.set 0 none) 0, isOpen := false, size := 0 } := by
+      simp [rotate, rotateFiles, hm, renameChain]
+    rw [hrot] at h1
+    have hch := chainN cfg b 0 { t with isOpen := false, files := t.files.set 0 none } _ _ _ h1
+    refine ⟨b.length + 3 + 0 + 1 + 1 + 1, s', by omega, ?_⟩
+    refine RunsN.step rfl ?_
+    rw [e1]
+    refine RunsN.step rfl ?_
+    rw [e2]; exact hch
+  · have e2 : ((sys cfg).micro (.rRemove b) { t with isOpen := false }) =
+        (.rRename b cfg.maxBackups, { t with isOpen := false, files := t.files.set cfg.maxBackups none }) := by
+      show (if cfg.maxBackups < 1 then _ else _) = _
+      rw [if_neg hm]
+    have hrot : rotate cfg t = { files := renameChain (t.files.set cfg.maxBackups none) cfg.maxBackups, isOpen := false, size := 0 } := by
+      simp [rotate, rotateFiles, hm]
+    rw [hrot] at h1
+    have hch := chainN cfg b cfg.maxBackups { t with isOpen := false, files := t.files.set cfg.maxBackups none } _ _ _ h1
+    refine ⟨b.length + 3 + cfg.maxBackups + 1 + 1 + 1, s', by omega, ?_⟩
+    refine RunsN.step rfl ?_
+    rw [e1]
+    refine RunsN.step rfl ?_
+    rw [e2]; exact hch
+
+/-- `Write` from ANY state (in step or not) finishes within `opBound` micro-steps -/
+theorem writeN (cfg : Cfg) (b : Bytes) (s : St) :
+    ∃ n r s', n ≤ opBound cfg (.write b) ∧ RunsN (sys cfg) n (.wOpen b) s r s' := by
+  by_cases hc : (openIfNeeded s).size > 0 ∧ (openIfNeeded s).size + b.length > cfg.maxSize
+  · obtain ⟨n, s', hn, h⟩ := checkN_rot cfg b (openIfNeeded s) hc
+    exact ⟨n + 1, b.length, s', by simp only [opBound]; omega, RunsN.step rfl h⟩
+  · obtain ⟨s', h⟩ := passN_done cfg b s hc
+    exact ⟨b.length + 3, b.length, s', by simp only [opBound]; omega, h⟩
+
+/-- every method, from every state, finishes within `opBound` micro-steps -/
+theorem op_bounded (cfg : Cfg) (o : Op) (s : St) :
+    ∃ n r s', n ≤ opBound cfg o ∧ RunsN (sys cfg) n ((sys cfg).start o) s r s' := by
+  cases o with
+  | write b => exact writeN cfg b s
+  | close => exact ⟨1, 0, _, Nat.le_refl _, RunsN.step rfl (RunsN.fin rfl)⟩
+  | reopen => exact ⟨1, 0, _, Nat.le_refl _, RunsN.step rfl (RunsN.fin rfl)⟩
+  | sync => exact ⟨1, 0, _, Nat.le_refl _, RunsN.step rfl (RunsN.fin rfl)⟩
+
 end Rot
